@@ -145,7 +145,8 @@ class Dm14Net:
                     rec['exc'] = e
                 rec['t1'] = self.sim.now
                 self.client_results.append(rec)
-                self.sim.sleep(op.get('gap_s', gap_s))
+                if op.get('gap_s', gap_s) > 0:      # 0: the next call follows without the thread ever giving up the processor
+                    self.sim.sleep(op.get('gap_s', gap_s))
         self.client_thread = self.sim.spawn(app, 'client-app')
         return self.client_thread
 
